@@ -334,15 +334,19 @@ func c22HeaderBits(c *Ctx) {
 	decBits := bits{}
 	decType := -1
 	connackDec := bits{}
+	connackVal := ""
+	if v, ok := c.constsOfType("pkg/protocol/frame", "FrameType", "")["CONNACK"]; ok {
+		connackVal = v.ExactString()
+	}
+	// the frame type as the decoder has it: the stored field, or the shifted header byte itself (a local copy of it)
+	connackGuard := func(op string) string {
+		return "*.FrameType " + op + " " + connackVal + " || (v >> *) " + op + " " + connackVal
+	}
 	for _, b := range dec.Blocks {
-		inConnack := false
-		if len(b.Preds) == 1 {
-			if iff, ok := b.Preds[0].Instrs[len(b.Preds[0].Instrs)-1].(*ssa.If); ok && b.Preds[0].Succs[0] == b {
-				if a, ok := condAtom(iff.Cond, true); ok && strings.Contains(a.L, "FrameType") {
-					inConnack = true
-				}
-			}
-		}
+		// a store belongs to the CONNACK layout when its block is reachable only over `frame type == CONNACK`
+		removed, _ := guardEdges(dec, parseGuard(connackGuard("==")))
+		_, reachableWithout := reachUnguarded(dec, removed, nil)[b]
+		inConnack := len(removed) > 0 && !reachableWithout
 		for _, in := range b.Instrs {
 			st, ok := in.(*ssa.Store)
 			if !ok {
@@ -420,10 +424,6 @@ func c22HeaderBits(c *Ctx) {
 		}
 	}
 	sort.Strings(overlap)
-	connackVal := ""
-	if v, ok := c.constsOfType("pkg/protocol/frame", "FrameType", "")["CONNACK"]; ok {
-		connackVal = v.ExactString()
-	}
 	var unguarded []string
 	for _, name := range overlap {
 		for _, b := range dec.Blocks {
@@ -436,7 +436,7 @@ func c22HeaderBits(c *Ctx) {
 				if !ok || strings.ToLower(fieldName(fa.X.Type(), fa.Field)) != name {
 					continue
 				}
-				removed, _ := guardEdges(dec, parseGuard("*.FrameType != "+connackVal))
+				removed, _ := guardEdges(dec, parseGuard(connackGuard("!=")))
 				limit := reachUnguarded(dec, removed, nil)
 				if lim, ok := limit[b]; ok && indexIn(b, in) < lim {
 					unguarded = append(unguarded, name)
@@ -503,14 +503,58 @@ func c22Varint(c *Ctx) {
 	}
 	// DecodeFrame: progress only behind len(data) >= msgLen; consumed = 1 + lengthBytes + remaining
 	df := c.Fn("pkg/protocol/codec.WKProto.DecodeFrame")
-	c.Guard("R4-varint", df, CallTo{"dyn:*"}, "len(data) >= (*)")
+	// (the body is cut out of data — and handed to a decoder, here or in a helper — only behind the length test)
+	bodySlice := InstrFn{Name: "slice data[…:msgLen]", F: func(in ssa.Instruction) bool {
+		sl, ok := in.(*ssa.Slice)
+		if !ok || sl.High == nil {
+			return false
+		}
+		p, isParam := sl.X.(*ssa.Parameter)
+		return isParam && p.Name() == "data"
+	}}
+	c.Guard("R4-varint", df, bodySlice, "len(data) >= (*)")
 	// encodedFrameSize = 1 + encodedVariableSize(body) + body
 	efs := c.Fn("pkg/protocol/codec.encodedFrameSize")
 	if efs != nil {
 		ok := false
+		// some return is the sum of exactly: the constant 1, a body size, and the length-prefix size of that body —
+		// the latter either encodedVariableSize(body) or the same count computed in place (a loop over /128)
+		inPlace, _ := consts("encodedFrameSize")
 		for _, in := range instrsMatching(efs, AnyRet{}) {
-			p := Path(in.(*ssa.Return).Results[0])
-			if strings.Contains(p, "encodedVariableSize(") && strings.HasPrefix(p, "((1 + ") {
+			var terms []ssa.Value
+			var flat func(v ssa.Value)
+			flat = func(v ssa.Value) {
+				if b, isBin := stripConv(v).(*ssa.BinOp); isBin && b.Op == token.ADD {
+					flat(b.X)
+					flat(b.Y)
+					return
+				}
+				terms = append(terms, stripConv(v))
+			}
+			flat(in.(*ssa.Return).Results[0])
+			if len(terms) != 3 {
+				continue
+			}
+			one, varlen, body := 0, 0, 0
+			for _, t := range terms {
+				switch x := t.(type) {
+				case *ssa.Const:
+					if k, isK := constUint(x); isK && k == 1 {
+						one++
+					}
+				case *ssa.Call:
+					if strings.HasSuffix(calleeName(&x.Call), ".encodedVariableSize") {
+						varlen++
+					}
+				case *ssa.Phi:
+					if inPlace["/128"] && inPlace[">0"] && inPlace["+1"] {
+						varlen++
+					}
+				default:
+					body++
+				}
+			}
+			if one == 1 && varlen == 1 && body == 1 {
 				ok = true
 			}
 		}
